@@ -603,4 +603,24 @@ LIST = Stream('cont_list', 'h_containers', 'containers', gen_list, oracle=oracle
 DICT = Stream('cont_dict', 'h_containers', 'containers', gen_dict, oracle=oracle_dict, nontrivial=_nontrivial)
 ADJ = Stream('cont_adj', 'h_containers', 'containers', gen_adj, oracle=oracle_adj, nontrivial=_nontrivial)
 
-STREAMS = [SORT_EXH, SORT_RND, LIST, DICT, ADJ]
+
+
+def gen_validate(rng, tier):
+    """the same stateful sessions, with a full state dump after every few operations"""
+    out = []
+    for gen, dump in ((gen_adj, 'adump'), (gen_dict, 'ddump'), (gen_list, 'ldump')):
+        k = 0
+        for o in gen(rng, tier):
+            out.append(o)
+            k += 1
+            if o.split()[0] not in (dump, 'reset') and (k % 5 == 0 or (300 <= k % 1000 < 340)):
+                out.append(dump)
+    return out
+
+
+# model invariants (RAdj.Inv / RDict.Inv / RList.Inv, via their proved-equivalent executable checkers)
+# evaluated on the implementation's own state dumps
+VALIDATE = Stream('cont_state_invariants', 'h_containers', 'containers', gen_validate, kind='validate',
+                  driver_args=('validate',), nontrivial=_nontrivial)
+
+STREAMS = [SORT_EXH, SORT_RND, LIST, DICT, ADJ, VALIDATE]
